@@ -254,6 +254,15 @@ class Expr2Mixin:
         raise Unsupported(f"cannot join kinds {a} and {b}")
 
     def list_binop(self, st, op, a, b):
+        top = getattr(self, 'top_spec', None)
+        if top is not None and getattr(top, 'numpy_arrays', False) and isinstance(op, (ast.Add, ast.Sub, ast.Mult, ast.Div)):
+            # numpy semantics (the contract declares its list-kinded values to be numpy arrays): element-wise arithmetic with a scalar or an array of
+            # the same length.  Only the length is modelled; the values are floating-point numerics outside the verifier
+            self.assumptions.add('numpy array arithmetic is element-wise (only the length of the result is modelled)')
+            l = st.lst(a) if isinstance(a, (VListRef, VList)) else st.lst(b)
+            if isinstance(a, (VListRef, VList)) and isinstance(b, (VListRef, VList)):
+                self.check(st, st.lst(a).n == st.lst(b).n, f"safety[{self.site(st, 'binop')}]::arrays_of_the_same_length", 'safety')
+            return st.new_list(self.fresh_list(REAL, 'nparith', n=l.n))
         if isinstance(op, ast.Add):
             la, lb = st.lst(a), st.lst(b)
             return st.new_list(self.concat(st, la, lb))
